@@ -91,7 +91,7 @@ func buildUDPServer(t hx.TB) *hx.FakePacketConn {
 		{Match: sel('V', 1), Handle: []map[string]any{small, rx.H("echo")}},
 		{Match: sel('X', 1), Handle: []map[string]any{rx.H("tee", "branch", []map[string]any{rx.H("verif_term", "id", "UDPBRANCH")}), small, rx.H("echo")}},
 	}
-	srv, err := rx.Server(rx.BareCtx(), routes, 5*time.Second)
+	srv, err := rx.Server(rx.BareCtx(), routes, 90*time.Second)
 	if err != nil {
 		t.Fatalf("provision: %v", err)
 	}
